@@ -231,7 +231,8 @@ def lmmm_cases(ck, n_cases, n_samples):
 # second generator ("xgen"): typed random programs over the part of the core language the Lmmm model does not cover
 # (closures with captured/assigned variables, makers, higher-order functions, tuples and destructuring, tuple-valued self,
 #  recursion, arrays, pipes, blocks, non-integer arithmetic and the math intrinsics). Oracle: the real VM only.
-# One delay size per program (never class F3); branching constructs never inside a tuple literal (former finding F13, repaired).
+# Branching constructs are kept out of tuple literals (former finding F13, repaired); delays of different sizes are mixed freely
+# (former finding F3, repaired).
 # ---------------------------------------------------------------------------------------------------------
 XLITS = ["0.0", "1.0", "2.0", "3.0", "(-1.0)", "0.5", "0.25", "1.5", "(-2.5)", "0.1", "10.0", "7.0"]
 F21_BUILTINS = ["round", "floor", "ceil", "not", "tan", "sinh", "cosh", "tanh", "asin", "acos", "atan", "atan2"]
@@ -372,7 +373,7 @@ class XGen:
             if c < 38:
                 return "mem(%s)" % sub()
             if c < 39:
-                return "delay(%d.0, %s, %s)" % (self.dsize, sub(), r.choice(["0.0", "1.0", "2.0", "1.5", sub(d - 2, st=False)]))
+                return "delay(%d.0, %s, %s)" % (r.choice([1, 2, 3, 5]), sub(), r.choice(["0.0", "1.0", "2.0", "1.5", sub(d - 2, st=False)]))
         return self.leaf(env, fn, st)
 
     def texpr(self, n, d, env, fn=False, st=True):
@@ -568,7 +569,7 @@ def xgen_cases(ck, n_cases, n_samples):
 # running
 # ---------------------------------------------------------------------------------------------------------
 def vm_requests(cases):
-    reqs, n_iso = [], 0
+    reqs = []
     for c in cases:
         r = {"src": c["src"], "n": c["n"], "state": False, "sched": c["sched"], "backends": ["vm"]}
         if c["inputs"]:
@@ -577,13 +578,6 @@ def vm_requests(cases):
             r["path"] = c["path"]
         if c["cls"]:
             r["backends"] = ["vm", "wasm"]
-        if "F3" in c["cls"]:
-            # class F3 corrupts the VM's heap: the first few run alone in their own process, the rest on WASM only
-            if n_iso < 10:
-                n_iso += 1
-                r["isolate"] = True
-            else:
-                r["backends"] = ["wasm"]
         reqs.append(r)
     return reqs
 
@@ -661,7 +655,7 @@ def judge(c, R, V, W, ref_bits, findings, methods):
         why = "the VM %s (%s) where the generated Rust runs" % (V["st"], V["msg"])
     if "F27" in findings and stateful_primitive_in_match_arm(c["src"]) and (V["st"] in ("panic", "absent") or (R["st"] == "ok" and V["st"] == "ok")):
         return ("known", "F27", src1 + " -> " + why[:140])
-    hits = [k for k in ("F3",) if k in c["cls"] and k in findings]
+    hits = [k for k in sorted(c["cls"]) if k in findings]
     if hits:
         # known defects of the VM / of the shared MIR lowering: the oracle is the reference semantics, else the WASM runtime
         if full_R and ref_bits is not None and R["samples"] == ref_bits:
@@ -1342,7 +1336,6 @@ def run(ck):
     ck.coverage["fixtures_run"] = len(fixtures)
     ck.coverage["stats"] = dict(sorted(stats.items()))
     ck.coverage["feature_totals_generated"] = feats
-    ck.coverage["classes_generated"] = {k: sum(1 for c in cases if k in c["cls"]) for k in ("F3",)}
     if rustc_ms:
         ck.coverage["rustc_ms_median"] = sorted(rustc_ms)[len(rustc_ms) // 2]
     gen_idx = [i for i, c in enumerate(cases) if c["kind"] == "gen"]
@@ -1387,9 +1380,9 @@ def finish(ck):
                      "Context::emit_rust, compiled with rustc and run; clause (a) every accepted program compiles, (b) every output sample equals "
                      "the real VM's bit for bit (first-order programs also against the extracted reference semantics), (c) plugin-dependent "
                      "programs are refused at emit time or by a run-time error naming the external. Failures inside the listed classes "
-                     "(KNOWN_FINDINGS C18: F3 F20 F21 F22 F23 F24 F26 F27) are reported as known findings only when they show the known "
-                     "symptom (for F23/F24: the failure disappears under the semantics-preserving rewrite of exactly that construct; for F3/F26: "
-                     "generated Rust equals the reference semantics / WASM); anything else is a violation and is shrunk."),
+                     "(KNOWN_FINDINGS C18: F20 F21 F22 F23 F24 F26 F27) are reported as known findings only when they show the known "
+                     "symptom (for F23/F24: the failure disappears under the semantics-preserving rewrite of exactly that construct; for F26: "
+                     "generated Rust equals the WASM runtime); anything else is a violation and is shrunk."),
         trusted_base=["rustc 2024 edition (the repo's own recipe: rustc --edition=2024 <generated source + mimium_test_main.rs.template>)",
                       "harness/lang rustgen_run (host: current_time = sample index, sample_rate = 48000, every external refused) and lmmm_run",
                       "lib/lmmm.py generator and pretty-printer; the second generator and the text-level rewrites in checks/C18.py",
